@@ -1084,5 +1084,38 @@ seed("c09-auth-read-error-continues", "C09", "R-auth-read-failure-ends", "conn.g
 			continue
 		}""", "a failed read inside the SASL exchange steps the mechanism again with the previous response, forever on a dead connection")
 
+seed("c04-readline-arms-both-deadlines", "C04", "R-write-deadline-owner", "conn.go",
+"""		if err := c.conn.SetReadDeadline(time.Now().Add(c.server.ReadTimeout)); err != nil {""",
+"""		if err := c.conn.SetDeadline(time.Now().Add(c.server.ReadTimeout)); err != nil {""", "the read deadline also expires replies when WriteTimeout is unset")
+seed("c12-rcptmax-off-by-one", "C12", "R-cmd-gates-agree", "conn.go",
+"	if c.server.MaxRecipients > 0 && len(c.recipients) >= c.server.MaxRecipients {", "	if c.server.MaxRecipients > 0 && len(c.recipients)+1 >= c.server.MaxRecipients {", "one recipient fewer than the advertised RCPTMAX is accepted")
+seed("c05-too-many-args-keeps-chunk", "C05", "R-bdat-consume", "conn.go",
+"""		// The size is known: the chunk of this refused BDAT must be
+		// discarded as well, it must not be interpreted as commands.
+		_, discardErr := io.Copy(ioutil.Discard, io.LimitReader(c.text.R, int64(size)))
+		c.writeResponse(501, EnhancedCode{5, 5, 4}, "Too many arguments")
+		if discardErr != nil {
+			c.Close()
+		}
+		return""", """		c.writeResponse(501, EnhancedCode{5, 5, 4}, "Too many arguments")
+		return""", "BDAT n LAST x refused without consuming its chunk")
+seed("c17-data-error-replaced", "C17", "R-verdict-flow", "conn.go",
+"""	r := newDataReader(c)
+	code, enhancedCode, msg := dataErrorToStatus(c.Session().Data(r))""", """	r := newDataReader(c)
+	dataErr := c.Session().Data(r)
+	if dataErr != nil && r.limited && r.n < 0 {
+		dataErr = ErrDataTooLarge
+	}
+	code, enhancedCode, msg := dataErrorToStatus(dataErr)""", "the backend's own error is replaced by 552 when the message was over the limit")
+seed("c08-reader-eof-after-error", "C08", "R-dot-state-carried", "data.go",
+"""			if err == io.EOF {
+				err = io.ErrUnexpectedEOF
+			}
+			break""", """			if err == io.EOF {
+				err = io.ErrUnexpectedEOF
+			}
+			r.state = stateEOF
+			break""", "after a failed read the reader reports EOF: the drain succeeds and the connection is kept")
+
 json.dump(S, open(os.path.join(os.path.dirname(os.path.abspath(__file__)), "bank.json"), "w"), indent=1)
 print(len(S), "seeds")
